@@ -64,6 +64,66 @@ def render_item(item):
     raise ValueError(item)
 
 
+# the command line is an input of the environment like any other: the same options can be written in every way
+# getopt_long accepts (--name=value, --name value, -cvalue, -c value, an unambiguous prefix of the long name,
+# clustered flags, options after the positional arguments); a session must not depend on the spelling
+OPTIONS = {"help": ("h", 0), "quiet": ("q", 0), "tx": ("x", 1), "txin": ("i", 1), "modify-flags": ("f", 1), "select": ("s", 1),
+           "pretend-valid": ("P", 1), "default-flags": ("d", 0), "allow-disabled-opcodes": ("z", 0), "version": ("V", 0),
+           "dataset": ("X", 2), "verbose": ("v", 0), "debug": ("D", 1)}
+SHORT = {v[0]: (k, v[1]) for k, v in OPTIONS.items()}
+
+
+def _abbrev(rng, name):
+    ok = [name[:n] for n in range(1, len(name)) if sum(1 for o in OPTIONS if o.startswith(name[:n])) == 1]
+    return rng.choice(ok) if ok and rng.chance(50) else name
+
+
+def respell_argv(opts, positional, style, permute=True):
+    from .prng import Rng
+    rng = Rng(style)
+    parsed = []
+    for o in opts:
+        if o.startswith("--") and len(o) > 2:
+            name, eq, val = o[2:].partition("=")
+            if name not in OPTIONS:
+                return list(opts) + list(positional)
+            parsed.append((name, val if eq else None))
+        elif o.startswith("-") and len(o) >= 2 and o[1] in SHORT:
+            name, kind = SHORT[o[1]]
+            if kind == 0 and len(o) > 2:
+                return list(opts) + list(positional)      # a cluster already: leave the line alone
+            parsed.append((name, o[2:] if len(o) > 2 else None))
+        else:
+            return list(opts) + list(positional)
+    out = []
+    for (name, val) in parsed:
+        c, kind = OPTIONS[name]
+        if kind == 0:
+            out.append(rng.choice([["--" + name], ["-" + c], ["--" + _abbrev(rng, name)]]))
+        elif not val:
+            out.append(["--" + name + ("=" if val == "" else "")])          # empty or absent value: as written
+        elif kind == 2:
+            out.append(rng.choice([["--" + name + "=" + val], ["-" + c + val], ["-" + c, val], ["--" + _abbrev(rng, name) + "=" + val]]))
+        else:
+            out.append(rng.choice([["--" + name + "=" + val], ["--" + name, val], ["-" + c + val], ["-" + c, val],
+                                   ["--" + _abbrev(rng, name) + "=" + val], ["--" + _abbrev(rng, name), val]]))
+    # clustered flags: "-q" "-z" -> "-qz"; a flag may also lead a short option with a value: "-q" "-fX" -> "-qfX"
+    merged = []
+    for g in out:
+        if merged and len(merged[-1]) == 1 and len(merged[-1][0]) >= 2 and merged[-1][0][0] == "-" and merged[-1][0][1] != "-" \
+                and all(SHORT.get(ch, ("", 1))[1] == 0 for ch in merged[-1][0][1:]) \
+                and g[0][0] == "-" and g[0][1:2] != "-" and rng.chance(50):
+            merged[-1] = [merged[-1][0] + g[0][1:]] + g[1:]
+        else:
+            merged.append(list(g))
+    letters = [OPTIONS[n][0] for (n, _) in parsed]
+    front, back = [], []
+    can_move = permute and positional and len(set(letters)) == len(letters) and not any(p.startswith("-") for p in positional)
+    for g in merged:
+        (back if can_move and rng.chance(30) else front).append(g)
+    return [a for g in front for a in g] + list(positional) + [a for g in back for a in g]
+
+
 def build_world(scn, sched=None, observe=None, faults=True):
     """The world of a scenario.  `sched` overrides the scenario's schedule
     (reference runs); observers follow every item whose kind changes state when
@@ -83,12 +143,15 @@ def build_world(scn, sched=None, observe=None, faults=True):
                 argv.append("--txin=" + sp["txin"])
             if sp.get("select") is not None:
                 argv.append("--select=%d" % sp["select"])
+    nopt = len(argv)
     stdin_script = scn.get("script_on_stdin", False)
     if scn.get("script") is not None and not stdin_script:
         argv.append("0x" + scn["script"])
     elif scn.get("script_text") is not None and not stdin_script and scn.get("script_text_in_argv", True):
         argv.append(scn["script_text"])
     argv += ["0x" + s for s in scn.get("stack", [])]
+    if scn.get("argv_style") is not None:
+        argv = respell_argv(argv[:nopt], argv[nopt:], scn["argv_style"], permute=not scn.get("extra_argv"))
     if scn.get("extra_argv"):
         argv += scn["extra_argv"]
     tty = scn.get("tty", [1, 1])
